@@ -5,6 +5,8 @@ import XsdataModel.Xml.Compose
 import XsdataModel.Xml.TblNsEnv
 import XsdataModel.Spec.Hyps
 import XsdataModel.Proofs.EventsTree
+import XsdataModel.Spec.BindLex
+import XsdataModel.Proofs.Assembly
 open Lean Proto Py
 
 namespace OpsXmlCompose
@@ -48,6 +50,30 @@ def run (op : String) (a : Json) : Option (Except String Json) :=
                           | .data v => (Spec.XmlNs.valText v).isSome
                           | _ => true))),
                       ("user_map", jBool (Spec.Hyps.userMapOK Xs.Ns.tblNsEnv m))])
+  | "ser.frag" => some do
+      -- the input-level hypotheses of serialize_*_FN_partial (C01's fragment predicates + the lexical ones)
+      -- and what the composed model makes of the input
+      let Γ ← dCtx (field a "ctx")
+      let v ← dVal (field a "value")
+      let c ← OpsBind.dStr (field a "clazz")
+      let m ← OpsXml.asNsMap (a.getObjValD "ns_map")
+      let wcfg ← OpsXml.getCfg a
+      let f := field a "feat"
+      let flag (k : String) : Bool := (field f k).getBool?.toOption.getD false
+      let ft : Xs.Bind.FN.Feat := ⟨flag "nillable", flag "tokens", flag "wrapper", flag "sequence", flag "fixed", flag "anyAttrs", flag "inherit", flag "wildcard"⟩
+      let scfg : Xs.Bind.SerCfg :=
+        { ignoreDefaultAttributes := (field a "ignore_default_attributes").getBool?.toOption.getD false }
+      let out := match Xs.Compose.render Xs.Ns.tblNsEnv benv Γ scfg wcfg m v with
+        | .text s => jObj [("text", jStr s)]
+        | .genError e => OpsBind.jErr e
+        | .writeError e => err e.name
+        | .uncovered => jObj [("unsupported", Json.str "payload")]
+      pure (ok (jObj [("ctx", jBool (Xs.Bind.FN.ctxOK ft Γ)), ("val", jBool (Xs.Bind.FN.valOKI ft.inherit benv Γ c v)),
+        ("ctx_lex", jBool (Spec.BindLex.ctxLexOK Γ)), ("val_lex", jBool (Spec.BindLex.valLexOK Γ v)),
+        ("exact", jBool (Spec.BindLex.valExactOK Γ v)),
+        ("user_map", jBool (Spec.Hyps.userMapOK Xs.Ns.tblNsEnv m)),
+        ("plain_cfg", jBool (Proofs.Assembly.plainCfg wcfg)),
+        ("out", out)]))
   | _ => none
 
 end OpsXmlCompose
